@@ -12,7 +12,7 @@ package browse
 //@ use @verif/specs/stdlib.spec:stdlib
 //@ use @verif/specs/stdlib.spec:casket_api
 
-//@ unit tryfiles_handler props=C12,C11 nilchecks=on filter=`TryFiles\)\.ServeHTTP$`
+//@ unit tryfiles_handler frames=on props=C12,C11 nilchecks=on filter=`TryFiles\)\.ServeHTTP$`
 //@ // the handler the directive installs: it rewrites the request in place (or not, under an `except` path) and then runs
 //@ // the rest of the chain exactly once, handing its answer through unchanged
 //@ ghost nextCalls int
